@@ -819,6 +819,9 @@ theorem Rule.img_has (v : Variant) (r : Rule) (hc : r.check = true) (hok : r.okF
   | gen name dom cod =>
     simp only [Rule.img, Rule.check, ↓reduceIte, Rule.imgCore, Rule.dom, Rule.cod]
     exact Has.ofBox _
+  | dgen name dom cod =>
+    simp only [Rule.img, Rule.check, ↓reduceIte, Rule.imgCore, Rule.dom, Rule.cod]
+    exact Has.ofBox (Box.dag { name := name, dom := BTy.img cod, cod := BTy.img dom })
   | fa l r =>
     simp only [Rule.img, Rule.check, ↓reduceIte, Rule.imgCore, Rule.dom, Rule.cod, BTy.over,
       List.singleton_append, BTy.first_cons, BTy.rest_cons]
@@ -1225,11 +1228,35 @@ theorem BD.then_spec (v : Variant) {a b r : BD} (hat : a.Typed v) (haa : a.Avoid
 
 /-- What `tree2diagram` returns: a well-typed closed biclosed diagram whose codomain is a
     category and which contains no box of the shapes of F10/F14 — for either variant. -/
-structure TreeGood (v : Variant) (d : BD) : Prop where
+structure TreeGood (v : Variant) (D : BTy) (d : BD) : Prop where
   typed : d.Typed v
   avoids : d.Avoids v
-  dom : d.dom = []
+  dom : d.dom = D
   cod : (d.cod v).Simple1
+
+/-- `dom or cod[0:0]` is `dom` (both read the empty type when `dom` is falsy). -/
+theorem wordDom_eq (dom cod : BTy) : wordDom dom cod = dom := by
+  unfold wordDom
+  split
+  · rename_i h
+    subst h
+    simp [pySlice, pyLo, pyHi, pyIdx]
+  · rfl
+
+theorem CTree.domOf_nil (t : CTree) : t.domOf [] = [] := by cases t <;> rfl
+
+theorem mkWord_check (name : String) (cod dom : BTy) (dg : Bool) : (mkWord name cod dom dg).check = true := by
+  cases dg <;> rfl
+
+theorem mkWord_okFor (v : Variant) (name : String) (cod dom : BTy) (dg : Bool) :
+    (mkWord name cod dom dg).okFor v := by
+  cases dg <;> trivial
+
+theorem mkWord_dom (name : String) (cod dom : BTy) (dg : Bool) : (mkWord name cod dom dg).dom = dom := by
+  cases dg <;> simp [mkWord, Rule.dom, wordDom_eq]
+
+theorem mkWord_cod (name : String) (cod dom : BTy) (dg : Bool) : (mkWord name cod dom dg).cod = cod := by
+  cases dg <;> simp [mkWord, Rule.cod]
 
 theorem BD.ofRule_spec (v : Variant) (r : Rule) (hc : r.check = true) (hok : r.okFor v) :
     (BD.ofRule r).Typed v ∧ (BD.ofRule r).Avoids v ∧ (BD.ofRule r).dom = r.dom ∧
@@ -1293,7 +1320,7 @@ theorem nodeBox_spec (v : Variant) {type : String} {dom cod : BTy} {box : Rule}
         exact ⟨rfl, trivial, hcod⟩
 
 theorem nodeBD_good (v : Variant) {type : String} {cat : List Char} {kids : List BD} {d : BD}
-    (hk : ∀ k ∈ kids, TreeGood v k) (h : nodeBD v type cat kids = .ok d) : TreeGood v d := by
+    (hk : ∀ k ∈ kids, TreeGood v [] k) (h : nodeBD v type cat kids = .ok d) : TreeGood v [] d := by
   simp only [nodeBD] at h
   split at h
   · cases h
@@ -1321,23 +1348,25 @@ theorem nodeBD_good (v : Variant) {type : String} {cat : List Char} {kids : List
       exact fun k hk' => (hk k hk').dom
 
 mutual
-theorem CTree.toBD_good (v : Variant) : ∀ (t : CTree) (d : BD), t.toBD v = .ok d → TreeGood v d
-  | .word w cat, d, h => by
+theorem CTree.toBD_good (v : Variant) :
+    ∀ (t : CTree) (dom : BTy) (d : BD), t.toBD v dom = .ok d → TreeGood v (t.domOf dom) d
+  | .word w cat, dom, d, h => by
     simp only [CTree.toBD] at h
     split at h
     · cases h
     · rename_i cod hcat
       cases h
-      obtain ⟨b1, b2, b3, b4⟩ := BD.ofRule_spec v (.gen w [] cod) rfl trivial
-      exact ⟨b1, b2, b3, by rw [b4]; exact cat2ty_simple hcat⟩
-  | .node type cat children, d, h => by
+      obtain ⟨b1, b2, b3, b4⟩ := BD.ofRule_spec v (mkWord w cod dom false) (mkWord_check ..)
+        (mkWord_okFor v ..)
+      exact ⟨b1, b2, by rw [b3, mkWord_dom]; rfl, by rw [b4, mkWord_cod]; exact cat2ty_simple hcat⟩
+  | .node type cat children, dom, d, h => by
     simp only [CTree.toBD] at h
     split at h
     · cases h
     · rename_i kids hkids
       exact nodeBD_good v (CTree.listToBD_good v children kids hkids) h
 theorem CTree.listToBD_good (v : Variant) :
-    ∀ (ts : List CTree) (ds : List BD), CTree.listToBD v ts = .ok ds → ∀ d ∈ ds, TreeGood v d
+    ∀ (ts : List CTree) (ds : List BD), CTree.listToBD v ts = .ok ds → ∀ d ∈ ds, TreeGood v [] d
   | [], ds, h => by
     simp only [CTree.listToBD] at h
     cases h
@@ -1353,18 +1382,18 @@ theorem CTree.listToBD_good (v : Variant) :
         cases h
         intro x hx
         rcases List.mem_cons.mp hx with hx | hx
-        · subst hx; exact CTree.toBD_good v t _ hd
+        · subst hx; exact t.domOf_nil ▸ CTree.toBD_good v t [] _ hd
         · exact CTree.listToBD_good v ts ds' hds' x hx
 end
 
 /-- Translating a CCG derivation is type-preserving for the code as it is as well as for the
     repaired code: `tree2diagram` never builds a box of the shapes of F10/F14. -/
-theorem CTree.img_has (v : Variant) {t : CTree} {d : BD} (h : t.toBD v = .ok d) :
-    Has (d.img v) [] (BTy.img (d.cod v)) := by
-  have g := CTree.toBD_good v t d h
+theorem CTree.img_has (v : Variant) {t : CTree} {dom : BTy} {d : BD} (h : t.toBD v dom = .ok d) :
+    Has (d.img v) (BTy.img (t.domOf dom)) (BTy.img (d.cod v)) := by
+  have g := CTree.toBD_good v t dom d h
   have := BD.img_has v d g.typed g.avoids
   rw [g.dom] at this
-  simpa using this
+  exact this
 
 /-! ## Part G — cat2ty reads back printed categories -/
 
